@@ -1,68 +1,91 @@
 (* C12 - The DAP adapter speaks the protocol correctly for any request history.
-   Statements only; the proofs are in ProofsDapWire.v. *)
-From BS Require Import Model.Base.
+   Statements only; the proofs are in DapWireProofs.v.
+   Part 1: the source as it is now (constants read off the source by the translator, BS.Gen.Dap).
+   Part 2: what was wrong before the repairs 90c36fc / ae66bdd (theorems suffixed _old).
+   Part 3: what is still false of the current source. *)
+From BS Require Import Model.Base Gen.Dap.
 From BS Require Import Model.DapWire Proofs.DapWireProofs.
 Open Scope N_scope.
 
+(* ================================================================== *)
+(* 1. The current source                                              *)
+(* ================================================================== *)
+
+(* what the translator read: every site that takes a sequence number holds the transport lock,
+   and the run loop answers a failed handler only if the request has not been answered *)
+Theorem C12_seq_alloc_under_lock_now : SEQ_ALLOC_UNDER_LOCK = true.
+Proof. exact seq_alloc_under_lock_now. Qed.
+Theorem C12_run_loop_guard_now : RUN_LOOP_SINGLE_RESPONSE_GUARD = true.
+Proof. exact run_loop_guard_now. Qed.
+
 (* --- sequence numbers --- *)
 
-(* Session thread alone: for any requests and any handler behaviour (failing or not, answering
-   zero, one or several times) the messages are numbered 1,2,3,... in wire order. *)
-Theorem C12_seq_single_thread : forall ins, seqs_consecutive (wire (run ins init_st)).
-Proof. exact seq_single_thread. Qed.
+(* Any number of threads (session thread, forwarders) running the code's send blocks and read
+   blocks, ANY schedule: the messages are numbered 1,2,3,... in wire order. *)
+Theorem C12_seq_discipline : SEQ_ALLOC_UNDER_LOCK = true ->
+  forall (threads : list (list (option body))) (sched : list nat),
+  seqs_consecutive (c_wire (run_sched sched (init_c (map compile_code threads)))).
+Proof. exact seq_all_schedules_current. Qed.
 
-(* With an output forwarder the code takes the number before the transport lock: the schedule
-   alloc_A, alloc_B, lock/write/unlock_B, lock/write/unlock_A puts 2 before 1 on the wire. *)
-Theorem C12_seq_interleaved_refuted :
-  let c := run_sched [0; 1; 1; 1; 1; 0; 0; 0]%nat
-             (init_c [compile_real [Some (Event EV_STOPPED 0)]; compile_real (forwarder_blocks 1)]) in
-  c_wire c = [Msg 2 (Event EV_OUTPUT 0); Msg 1 (Event EV_STOPPED 0)] /\
-  seqs_consecutiveb (c_wire c) = false.
-Proof. exact seq_interleaved_refuted. Qed.
-
-(* The shape of a repair: number taken under the lock.  Any number of threads, any programs
-   (send blocks and read blocks), any schedule: consecutive. *)
+(* the underlying statement about the lock-then-number block *)
 Theorem C12_seq_locked_alloc_all_schedules :
   forall (threads : list (list (option body))) (sched : list nat),
   seqs_consecutive (c_wire (run_sched sched (init_c (map compile_fixed threads)))).
 Proof. exact seq_locked_alloc_all_schedules. Qed.
 
+(* Session thread alone: for any requests and any handler behaviour (failing or not, answering
+   zero, one or several times) the wire is numbered 1,2,3,... *)
+Theorem C12_seq_single_thread : forall ins, seqs_consecutive (wire (run ins init_st)).
+Proof. exact seq_single_thread. Qed.
+
+(* and it is the wire of thread 0 of the interleaving semantics run alone *)
+Theorem C12_session_alone_matches_sequential : SEQ_ALLOC_UNDER_LOCK = true -> forall ins,
+  let prog := compile_code (session_blocks ins) in
+  c_wire (run_sched (repeat 0%nat (length prog)) (init_c [prog])) = wire (run ins init_st).
+Proof. exact session_alone_matches_sequential. Qed.
+
 (* --- responses --- *)
 
-(* For arbitrary scripts the responses on the wire are exactly [expected]: per consumed request,
-   one per send_* call of the handler plus one if the handler fails. *)
-Theorem C12_responses_general : forall ins s,
-  resp_proj (bodies (run ins s)) = resp_proj (bodies s) ++ expected ins.
-Proof. exact responses_general. Qed.
+(* Condition [input_at_most_onceb]: on the path taken a handler returning Ok answers exactly
+   once and a handler returning Err answers at most once.  Then every consumed request gets
+   exactly one response, with its seq and command, in request order - whatever seqs the
+   client uses (repeated, out of order). *)
+Theorem C12_one_response_guarded : forall ins,
+  forallb input_at_most_onceb ins = true ->
+  one_response_per_request (processed ins) (bodies (run_gen true ins init_st)).
+Proof. exact one_response_guarded. Qed.
 
-(* Hence: handlers that answer exactly once on the path taken (the run loop's error response
-   counted) give exactly one response per consumed request, matching seq and command, in order. *)
-Theorem C12_one_response : forall ins,
-  forallb input_onceb ins = true ->
+(* the same about [run], i.e. with the guard as translated from the source today *)
+Theorem C12_one_response_now : forall ins,
+  forallb input_at_most_onceb ins = true ->
   one_response_per_request (processed ins) (bodies (run ins init_st)).
-Proof. exact one_response. Qed.
+Proof. exact one_response_now. Qed.
 
-(* handle_continue answers before it can fail: two responses to one request *)
-Theorem C12_double_response_refuted :
-  processed ins_double = [(1%Z, CMD_INITIALIZE); (2%Z, CMD_CONTINUE)] /\
-  bodies (run ins_double init_st) =
-    [Response 1 CMD_INITIALIZE true; Event EV_INITIALIZED 0;
-     Response 2 CMD_CONTINUE true; Event EV_CONTINUED 0; Response 2 CMD_CONTINUE false] /\
-  one_response_per_requestb (processed ins_double) (bodies (run ins_double init_st)) = false.
-Proof. exact double_response_refuted. Qed.
+(* a repeated request seq is answered (it was not by the intermediate repair, see part 2) *)
+Theorem C12_repeated_seq_now :
+  bodies (run ins_repeated_seq init_st) =
+    [Response 1 CMD_INITIALIZE true; Event EV_INITIALIZED 0; Response 1 CMD_LAUNCH false] /\
+  forallb input_at_most_onceb ins_repeated_seq = true.
+Proof. exact repeated_seq_now. Qed.
 
-(* A failing handler is answered with an error response and the session goes on. *)
-Theorem C12_error_response : forall r c h s,
+(* a handler that answers and fails afterwards (continue before configurationDone) is answered
+   once now, twice by the old loop *)
+Theorem C12_respond_then_fail_now :
+  resp_proj (bodies (run ins_respond_then_fail init_st)) = processed ins_respond_then_fail /\
+  resp_proj (bodies (run_gen false ins_respond_then_fail init_st)) =
+    [(1%Z, CMD_INITIALIZE); (2%Z, CMD_LAUNCH); (3%Z, CMD_CONTINUE); (3%Z, CMD_CONTINUE)].
+Proof. exact respond_then_fail_now. Qed.
+
+(* A failing handler: the loop goes on; it is answered with an error response if it has not
+   answered itself; it is not answered again if it has. *)
+Theorem C12_error_response_guarded : forall r c h s,
   s_fail h = true ->
-  error_response_for_failing_request r c (bodies s) (bodies (fst (dispatch_one r c h s))) /\
-  snd (dispatch_one r c h s) = true.
-Proof. exact error_response. Qed.
-
-(* ... but an undecodable envelope ends the session silently. *)
-Theorem C12_bad_envelope_silent_refuted :
-  bodies (run [InBadEnvelope; InReq 2 CMD_THREADS (h_simple true)] init_st) = [] /\
-  processed [InBadEnvelope; InReq 2 CMD_THREADS (h_simple true)] = [].
-Proof. exact bad_envelope_silent_refuted. Qed.
+  snd (dispatch_one_gen true r c h s) = true /\
+  (count_resp (s_body h) = 0%nat ->
+     error_response_for_failing_request r c (bodies s) (bodies (fst (dispatch_one_gen true r c h s)))) /\
+  (count_resp (s_body h) <> 0%nat ->
+     fst (dispatch_one_gen true r c h s) = run_body r c (s_body h) (set_last_responded None s)).
+Proof. exact error_response_guarded. Qed.
 
 (* --- lifecycle --- *)
 
@@ -79,12 +102,101 @@ Theorem C12_lifecycle_partial : forall ins,
   lifecycle_once (bodies (run ins init_st)) /\ no_event_after_terminated (bodies (run ins init_st)).
 Proof. exact lifecycle_partial. Qed.
 
-(* the forwarders never look at the latch *)
+(* the checkers used on harness cases mean what the predicates say *)
+Theorem C12_seqs_consecutiveb_iff : forall w, seqs_consecutiveb w = true <-> seqs_consecutive w.
+Proof. exact seqs_consecutiveb_iff. Qed.
+Theorem C12_lifecycle_okb_sound : forall bs, lifecycle_okb bs = true ->
+  lifecycle_once bs /\ no_event_after_terminated bs.
+Proof. exact lifecycle_okb_sound. Qed.
+
+(* non-vacuity: a whole session (initialize, launch, configurationDone, continue to exit,
+   disconnect) satisfies all hypotheses and passes the wire-level checker *)
+Example C12_nonvacuous :
+  let ins := ins_to_exit ++ [InReq 5 CMD_DISCONNECT (Script [PRespond true] false false)] in
+  single_debuggee_b ins = true /\ forallb input_at_most_onceb ins = true /\
+  length (wire (run ins init_st)) = 21%nat /\
+  wire_check (processed ins, wire (run ins init_st)) = 0.
+Proof. vm_compute. auto. Qed.
+
+(* ================================================================== *)
+(* 2. Before the repairs (documented defects, now fixed)              *)
+(* ================================================================== *)
+
+(* number taken before the lock: alloc_A, alloc_B, lock/write/unlock_B, lock/write/unlock_A
+   puts 2 before 1 on the wire *)
+Theorem C12_seq_interleaved_refuted_old :
+  let c := run_sched [0; 1; 1; 1; 1; 0; 0; 0]%nat
+             (init_c [compile_real [Some (Event EV_STOPPED 0)]; compile_real (forwarder_blocks 1)]) in
+  c_wire c = [Msg 2 (Event EV_OUTPUT 0); Msg 1 (Event EV_STOPPED 0)] /\
+  seqs_consecutiveb (c_wire c) = false.
+Proof. exact seq_interleaved_refuted_old. Qed.
+
+(* the same schedules against the code's blocks today *)
+Theorem C12_seq_interleaved_now :
+  let c1 := run_sched [0; 1; 1; 1; 1; 0; 0; 0]%nat
+             (init_c [compile_code [Some (Event EV_STOPPED 0)]; compile_code (forwarder_blocks 1)]) in
+  let c2 := run_sched [0; 1; 1; 0; 0; 0; 0; 0; 1; 1; 1]%nat
+             (init_c [compile_code [None; Some (Response 7 CMD_THREADS true)]; compile_code (forwarder_blocks 1)]) in
+  seqs_consecutiveb (c_wire c1) = true /\ seqs_consecutiveb (c_wire c2) = true.
+Proof. exact seq_interleaved_now. Qed.
+
+(* unguarded run loop + handle_continue answering before it can fail: two responses *)
+Theorem C12_double_response_refuted_old :
+  processed ins_double_old = [(1%Z, CMD_INITIALIZE); (2%Z, CMD_CONTINUE)] /\
+  bodies (run_gen false ins_double_old init_st) =
+    [Response 1 CMD_INITIALIZE true; Event EV_INITIALIZED 0;
+     Response 2 CMD_CONTINUE true; Event EV_CONTINUED 0; Response 2 CMD_CONTINUE false] /\
+  one_response_per_requestb (processed ins_double_old) (bodies (run_gen false ins_double_old init_st)) = false.
+Proof. exact double_response_refuted_old. Qed.
+
+Theorem C12_disconnect_double_response_refuted_old :
+  bodies (run_gen false ins_disconnect init_st) =
+    [Response 1 CMD_DISCONNECT true; Response 1 CMD_DISCONNECT false; Response 2 CMD_THREADS false].
+Proof. exact disconnect_double_response_refuted_old. Qed.
+
+(* the intermediate repair 4335108 (guard without the reset of mod.rs:678) compared request
+   seqs: a request failing before answering and repeating the seq of the last answered request
+   got no response at all *)
+Theorem C12_silent_repeated_seq_refuted_old :
+  processed ins_repeated_seq = [(1%Z, CMD_INITIALIZE); (1%Z, CMD_LAUNCH)] /\
+  bodies (run_seqguard ins_repeated_seq init_st) = [Response 1 CMD_INITIALIZE true; Event EV_INITIALIZED 0].
+Proof. exact silent_repeated_seq_refuted_old. Qed.
+
+(* what the unguarded loop did for arbitrary scripts, and when that was right *)
+Theorem C12_responses_general_old : forall ins s,
+  resp_proj (bodies (run_gen false ins s)) = resp_proj (bodies s) ++ expected ins.
+Proof. exact responses_general_old. Qed.
+Theorem C12_one_response_old : forall ins,
+  forallb input_onceb ins = true ->
+  one_response_per_request (processed ins) (bodies (run_gen false ins init_st)).
+Proof. exact one_response_old. Qed.
+
+(* ================================================================== *)
+(* 3. Still false of the current source                               *)
+(* ================================================================== *)
+
+(* a request that fails after its success response is reported as a success only *)
+Theorem C12_failed_continue_reports_success_refuted :
+  lastn 2 (bodies (run ins_respond_then_fail init_st)) = [Response 3 CMD_CONTINUE true; Event EV_CONTINUED 0].
+Proof. exact failed_continue_reports_success_refuted. Qed.
+
+(* disconnect whose detach fails: one response now, but the run loop does not stop *)
+Theorem C12_disconnect_detach_err_now :
+  bodies (run ins_disconnect init_st) = [Response 1 CMD_DISCONNECT true; Response 2 CMD_THREADS false].
+Proof. exact disconnect_detach_err_now. Qed.
+
+(* an undecodable envelope ends the session silently *)
+Theorem C12_bad_envelope_silent_refuted :
+  bodies (run [InBadEnvelope; InReq 2 CMD_THREADS (h_simple true)] init_st) = [] /\
+  processed [InBadEnvelope; InReq 2 CMD_THREADS (h_simple true)] = [].
+Proof. exact bad_envelope_silent_refuted. Qed.
+
+(* the forwarders never look at the latch: output after terminated (numbers are fine) *)
 Theorem C12_output_after_terminated_refuted :
-  let session := compile_real (session_blocks ins_to_exit) in
+  let session := compile_code (session_blocks ins_to_exit) in
   let c := run_sched (repeat 0%nat (length session) ++ repeat 1%nat 4)
-             (init_c [session; compile_real (forwarder_blocks 1)]) in
-  lifecycle_okb (map m_body (c_wire c)) = false /\
+             (init_c [session; compile_code (forwarder_blocks 1)]) in
+  lifecycle_okb (map m_body (c_wire c)) = false /\ seqs_consecutiveb (c_wire c) = true /\
   lastn 3 (c_wire c) = [Msg 19 (Event EV_EXITED 0); Msg 20 (Event EV_TERMINATED 0); Msg 21 (Event EV_OUTPUT 0)].
 Proof. exact output_after_terminated_refuted. Qed.
 
@@ -94,6 +206,13 @@ Theorem C12_nothing_after_terminated_refuted :
   nothing_after_terminatedb bs = false /\ lifecycle_okb bs = true /\
   lastn 2 bs = [Event EV_TERMINATED 0; Response 5 CMD_THREADS false].
 Proof. exact nothing_after_terminated_refuted. Qed.
+
+(* [initialized] bypasses the latch *)
+Theorem C12_initialized_after_terminated_refuted :
+  let bs := bodies (run (ins_to_exit ++ [InReq 5 CMD_INITIALIZE h_initialize]) init_st) in
+  lifecycle_okb bs = false /\
+  lastn 3 bs = [Event EV_TERMINATED 0; Response 5 CMD_INITIALIZE true; Event EV_INITIALIZED 0].
+Proof. exact initialized_after_terminated_refuted. Qed.
 
 (* second launch: thread 100 announced as exited twice *)
 Theorem C12_thread_exit_twice_refuted :
@@ -110,18 +229,8 @@ Theorem C12_stop_swallowed_after_exit_refuted :
   after = before ++ [Response 5 CMD_RESTART true].
 Proof. exact stop_swallowed_after_exit_refuted. Qed.
 
-(* the checkers used on harness cases mean what the predicates say *)
-Theorem C12_seqs_consecutiveb_iff : forall w, seqs_consecutiveb w = true <-> seqs_consecutive w.
-Proof. exact seqs_consecutiveb_iff. Qed.
-Theorem C12_lifecycle_okb_sound : forall bs, lifecycle_okb bs = true ->
-  lifecycle_once bs /\ no_event_after_terminated bs.
-Proof. exact lifecycle_okb_sound. Qed.
-
-(* non-vacuity: a whole session (initialize, launch, configurationDone, continue to exit,
-   disconnect) satisfies both hypotheses and passes the wire-level checker *)
-Example C12_nonvacuous :
-  let ins := ins_to_exit ++ [InReq 5 CMD_DISCONNECT (Script [PRespond true] false false)] in
-  single_debuggee_b ins = true /\ forallb input_onceb ins = true /\
-  length (wire (run ins init_st)) = 21%nat /\
-  wire_check (processed ins, wire (run ins init_st)) = 0.
-Proof. vm_compute. auto. Qed.
+(* a step that runs into the exit: the queued [continued] is dropped *)
+Theorem C12_continued_dropped_refuted :
+  bodies (run [InReq 1 CMD_NEXT (h_next_exit 0)] init_st) =
+    [Response 1 CMD_NEXT true; Event EV_EXITED 0; Event EV_TERMINATED 0].
+Proof. exact continued_dropped_refuted. Qed.
